@@ -152,7 +152,7 @@ structure Same (a b : St) : Prop where
 theorem doStreamSync_spec (s : St) (e : Ev) (he : e.eotTrig = false) :
     Same (doStreamSync s e) s ∧ (doStreamSync s e).sc = s.sc + 1 ∧
     ((doStreamSync s e).st = s.st ∧ s.sc + 1 ≤ 86 ∨ (doStreamSync s e).st = 5 ∧ 78 ≤ s.sc + 1 ∨
-     ((doStreamSync s e).st = 6 ∨ (doStreamSync s e).st = 0) ∧ 86 < s.sc + 1) := by
+     (doStreamSync s e).st = 6 ∧ 86 < s.sc + 1 ∨ (doStreamSync s e).st = 0 ∧ 78 ≤ s.sc + 1) := by
   simp only [doStreamSync, hMINS, hMAXS, he]
   repeat' split
   all_goals (refine ⟨⟨rfl, rfl, rfl, rfl, rfl, rfl⟩, rfl, ?_⟩)
@@ -248,7 +248,7 @@ theorem mid_step (si0 fr0 k : Nat) (t : St) (e : Ev) (hsi : si0 < 10) (hm : Mid 
     refine ⟨by rw [hs.si, b1], by rw [hs.ci, b2], by rw [hs.fi, b3], by rw [hs.fr, b4], by rw [hs.dcd, b5], by rw [hs.ncr, a6], ?_⟩
     rw [b8, hsc] at hsc' hcase
     rw [b7, hst] at hcase
-    rcases hcase with ⟨h, hle⟩ | ⟨h, hle⟩ | ⟨h | h, hle⟩
+    rcases hcase with ⟨h, hle⟩ | ⟨h, hle⟩ | ⟨h, hle⟩ | ⟨h, hle⟩
     · exact Or.inl ⟨hle, hsc', Or.inl h⟩
     · by_cases h86 : k + 1 ≤ 86
       · exact Or.inl ⟨h86, hsc', Or.inr ⟨h, hle⟩⟩
@@ -506,6 +506,132 @@ theorem coasting_bounded (s0 : St) (es : List Ev) (h0 : s0.st = 2 ∧ s0.dcd = t
   have := hc es.length (Nat.le_refl _)
   rw [List.take_length] at this
   obtain ⟨_, hm, hst⟩ := this
+  rcases hst with ⟨_, hf⟩ | ⟨_, hf⟩ <;> omega
+
+
+/-! ## a lock needs decodable frames: sync words alone cannot hold the stream state -/
+
+theorem hSCOST : SCOST = 80 := gen_consts.2.2.2.1
+
+/-- events of a sample in which the end-of-transmission correlator does not fire and any frame completed decodes at or above the
+    stream cost limit (nothing usable), leaving the decoder in a stream state; sync words may or may not be found -/
+def Undecodable (e : Ev) : Prop := e.eotTrig = false ∧ 80 ≤ e.cost ∧ (e.decState = 0 ∨ e.decState = 1)
+
+def Locked (f0 m0 : Nat) (s : St) : Prop :=
+  s.dcd = true ∧ s.msc ≤ 10 ∧ 80 ≤ s.cost ∧
+  ((s.st = 2 ∧ s.frames + m0 ≤ s.msc + f0) ∨ ((s.st = 5 ∨ s.st = 6) ∧ s.frames + m0 + 1 ≤ s.msc + f0))
+
+theorem doStreamSync_undec (s : St) (e : Ev) (he : e.eotTrig = false) (hc : 80 ≤ s.cost) :
+    (doStreamSync s e).dcd = s.dcd ∧ (doStreamSync s e).frames = s.frames ∧ (doStreamSync s e).cost = s.cost ∧
+    (((doStreamSync s e).st = s.st ∧ (doStreamSync s e).msc = s.msc) ∨
+     (((doStreamSync s e).st = 5 ∨ (doStreamSync s e).st = 6) ∧ (doStreamSync s e).msc = s.msc + 1 ∧ s.msc < 10) ∨
+     (doStreamSync s e).st = 0) := by
+  have hnc : ¬ s.cost < 80 := by omega
+  simp only [doStreamSync, hMINS, hMAXS, hMAXMISS, hSCOST, he, hnc]
+  repeat' split
+  all_goals (refine ⟨rfl, rfl, rfl, ?_⟩)
+  all_goals simp_all
+
+theorem doSyncWait_undec (s : St) :
+    (doSyncWait s).dcd = s.dcd ∧ (doSyncWait s).frames = s.frames ∧ (doSyncWait s).cost = s.cost ∧ (doSyncWait s).msc = s.msc ∧
+    ((doSyncWait s).st = s.st ∨ (doSyncWait s).st = 6) := by
+  simp only [doSyncWait]
+  split
+  · exact ⟨rfl, rfl, rfl, rfl, Or.inl rfl⟩
+  · exact ⟨rfl, rfl, rfl, rfl, Or.inr rfl⟩
+
+theorem doFrame_undec (s : St) (e : Ev) (he : Undecodable e) :
+    (doFrame s e).dcd = s.dcd ∧ (doFrame s e).msc = s.msc ∧
+    (((doFrame s e).st = s.st ∧ (doFrame s e).frames = s.frames ∧ (doFrame s e).cost = s.cost) ∨
+     ((doFrame s e).st = 2 ∧ (doFrame s e).frames = s.frames + 1 ∧ 80 ≤ (doFrame s e).cost)) := by
+  obtain ⟨_, hcst, hd⟩ := he
+  simp only [doFrame]
+  repeat' split
+  all_goals (refine ⟨rfl, rfl, ?_⟩)
+  all_goals simp_all
+
+theorem advance_undec (s : St) : (advance s).dcd = s.dcd ∧ (advance s).msc = s.msc ∧ (advance s).st = s.st ∧ (advance s).frames = s.frames ∧ (advance s).cost = s.cost := by
+  simp only [advance]
+  repeat' split
+  all_goals exact ⟨rfl, rfl, rfl, rfl, rfl⟩
+
+theorem locked_step (f0 m0 : Nat) (s : St) (e : Ev) (h : Locked f0 m0 s) (he : Undecodable e) (hnz : (step s e).st ≠ 0) : Locked f0 m0 (step s e) := by
+  obtain ⟨hd, hm, hcs, hst⟩ := h
+  obtain ⟨a1, a2, a3, a4, a5⟩ := advance_undec (tick s)
+  have b1 : (advance (tick s)).dcd = true := by rw [a1]; exact hd
+  have b2 : (advance (tick s)).msc = s.msc := a2
+  have b3 : (advance (tick s)).st = s.st := a3
+  have b4 : (advance (tick s)).frames = s.frames := a4
+  have b5 : (advance (tick s)).cost = s.cost := a5
+  have hD : (dispatch (advance (tick s)) e).st ≠ 0 → Locked f0 m0 (dispatch (advance (tick s)) e) := by
+    generalize advance (tick s) = m at *
+    intro hz
+    rcases hst with ⟨h2, hf⟩ | ⟨h5 | h6, hf⟩
+    · have hd' : dispatch m e = doStreamSync m e := by simp only [dispatch, b3, h2]
+      rw [hd'] at hz ⊢
+      obtain ⟨c1, c2, c3, c4⟩ := doStreamSync_undec m e he.1 (by rw [b5]; exact hcs)
+      refine ⟨by rw [c1, b1], ?_, by rw [c3, b5]; exact hcs, ?_⟩
+      · rcases c4 with ⟨_, c⟩ | ⟨_, c, cl⟩ | c
+        · rw [c, b2]; exact hm
+        · rw [c, b2]; rw [b2] at cl; omega
+        · exact absurd c hz
+      · rcases c4 with ⟨cs, c⟩ | ⟨cs, c, cl⟩ | c
+        · left; exact ⟨by rw [cs, b3, h2], by rw [c2, c, b4, b2]; exact hf⟩
+        · right; exact ⟨cs, by rw [c2, c, b4, b2]; omega⟩
+        · exact absurd c hz
+    · have hd' : dispatch m e = doSyncWait m := by simp only [dispatch, b3, h5]
+      rw [hd']
+      obtain ⟨c1, c2, c3, c4, c5⟩ := doSyncWait_undec m
+      refine ⟨by rw [c1, b1], by rw [c4, b2]; exact hm, by rw [c3, b5]; exact hcs, Or.inr ⟨?_, by rw [c2, c4, b4, b2]; exact hf⟩⟩
+      rcases c5 with c | c
+      · left; rw [c, b3, h5]
+      · right; exact c
+    · have hd' : dispatch m e = doFrame m e := by simp only [dispatch, b3, h6]
+      rw [hd']
+      obtain ⟨c1, c2, c3⟩ := doFrame_undec m e he
+      refine ⟨by rw [c1, b1], by rw [c2, b2]; exact hm, ?_, ?_⟩
+      · rcases c3 with ⟨_, _, c⟩ | ⟨_, _, c⟩
+        · rw [c, b5]; exact hcs
+        · exact c
+      · rcases c3 with ⟨cs, c, _⟩ | ⟨cs, c, _⟩
+        · right; exact ⟨Or.inr (by rw [cs, b3, h6]), by rw [c, c2, b4, b2]; exact hf⟩
+        · left; exact ⟨cs, by rw [c, c2, b4, b2]; omega⟩
+  have hdt : (tick s).dcd = true := hd
+  have hX : (dispatch (advance (tick s)) e).dcd = true := by rw [dispatch_dcd, (advance_core _).2.2]; exact hdt
+  have hstep : step s e = dispatch (advance (tick s)) e ∨ step s e = setCnt0 (dispatch (advance (tick s)) e) ∨ (step s e).st = 0 := by
+    simp only [step, hdt, Bool.true_eq_false, ↓reduceIte]
+    split
+    · rcases updateDcd_coast (dispatch (advance (tick s)) e) e.det hX with hu | hu
+      · right; left; rw [hu]
+      · right; right; exact hu
+    · left; rfl
+  rcases hstep with hs | hs | hs
+  · rw [hs] at hnz ⊢; exact hD hnz
+  · rw [hs] at hnz ⊢; exact hD hnz
+  · exact absurd hs hnz
+
+/-- **sync words alone cannot hold the stream state, for every signal**: start where a stream frame has just been delivered undecodable
+    (cost at or above the limit) with `m0 ≤ 10` on the miss count.  If every further frame is undecodable too, then — whether or not a
+    sync word is found at the expected place in every frame — at most `10 − m0` more frames are delivered before the demodulator gives
+    up (state UNLOCKED) and searches again.  A data pattern that resembles the sync word and recurs in every frame therefore cannot keep
+    it locked to frames it cannot decode. -/
+theorem lock_needs_decodable_frames (s0 : St) (es : List Ev) (h0 : s0.st = 2 ∧ s0.dcd = true ∧ s0.msc ≤ 10 ∧ 80 ≤ s0.cost)
+    (he : ∀ e ∈ es, Undecodable e) (hnz : ∀ k, k ≤ es.length → (run s0 (es.take k)).st ≠ 0) :
+    (run s0 es).frames + s0.msc ≤ s0.frames + 10 := by
+  have hc : ∀ k, k ≤ es.length → Locked s0.frames s0.msc (run s0 (es.take k)) := by
+    intro k
+    induction k with
+    | zero => intro _; simp only [List.take_zero, run, List.foldl_nil]; exact ⟨h0.2.1, h0.2.2.1, h0.2.2.2, Or.inl ⟨h0.1, by omega⟩⟩
+    | succ k ih =>
+      intro hk
+      have hk' : k < es.length := by omega
+      rw [run_take_succ s0 es k hk']
+      apply locked_step _ _ _ _ (ih (by omega)) (he _ (List.getElem_mem hk'))
+      rw [← run_take_succ s0 es k hk']
+      exact hnz (k + 1) hk
+  have := hc es.length (Nat.le_refl _)
+  rw [List.take_length] at this
+  obtain ⟨_, hm, _, hst⟩ := this
   rcases hst with ⟨_, hf⟩ | ⟨_, hf⟩ <;> omega
 
 
